@@ -11,3 +11,14 @@ package jws
 //@   results sig, err
 //@   requires jwk != nil
 //@   ensures (err == nil) == sigValid(jwsStr, jwk)
+
+// compact JWS decoding is a function of the string (assumed; the parser's structure is C09's subject)
+//@ spec jwsOK(c string) bool
+//@ spec jwsHeaders(c string) jws.Headers
+//@ spec jwsPayload(c string) bytes
+//
+//@ func ParseJWS
+//@   trusted
+//@   results sig, err
+//@   ensures (err == nil) == jwsOK(jwsStr)
+//@   ensures err == nil ==> sig != nil && fresh(sig) && sig.ProtectedHeaders == jwsHeaders(jwsStr) && sig.Payload == jwsPayload(jwsStr)
